@@ -86,7 +86,7 @@ theorem live_removeListener (kf : Kernel) (o : List Fd) (fd : Fd) (st : Sock) (r
     (hst : st ∈ kf.tbl.socks) (hfd : st.fd = fd) (hl : st.listen = some ready)
     (hnoReady : ∀ y ∈ ready, ∀ s ∈ kf.tbl.socks, s.fd ≠ y)
     (hnoSyn : ∀ s ∈ kf.tbl.socks, s.fd ≠ fd → ∀ tc b, s.tcb = some tc → tc.state = .synRecv →
-      s.bound = some b → b.port = (boundEp st).port →
+      s.bound = some b → b.port = (boundEp st).port → b.addr.v6 = (boundEp st).ip.v6 →
       ((boundEp st).ip.isUnspec = true ∨ b.addr = (boundEp st).ip) → False)
     (h : Live kf o) : Live { kf with tbl := kf.tbl.remove fd } (o.filter (· != fd)) := by
   have hsocks : ∀ s, s ∈ (kf.tbl.remove fd).socks ↔ s ∈ kf.tbl.socks ∧ s.fd ≠ fd := by
@@ -114,7 +114,9 @@ theorem live_removeListener (kf : Kernel) (o : List Fd) (fd : Fd) (st : Sock) (r
           obtain ⟨b, hbb⟩ := Option.isSome_iff_exists.mp hb
           have hbe : boundEp s = ⟨b.addr, b.port⟩ := by unfold boundEp; rw [hbb]
           have hste : boundEp st = ⟨e.1.addr, e.1.port⟩ := by unfold boundEp; rw [hs2b]
-          refine hnoSyn s hs1 hne tc b htc hsr hbb ?_ ?_
+          refine hnoSyn s hs1 hne tc b htc hsr hbb ?_ ?_ ?_
+          · rw [hste]
+            rcases hk with hk | hk <;> rw [hk, hbe] <;> rfl
           · rw [hste]
             rcases hk with hk | hk <;> rw [hk, hbe] <;> rfl
           · rw [hste]
@@ -150,7 +152,8 @@ def closeChildren (k : Kernel) (fd : Fd) (st : Sock) (ready : List Fd) : List Fd
     c.fd != fd && !ready.contains c.fd &&
       (match c.tcb, c.bound with
        | some tc, some b =>
-         tc.state == .synRecv && b.port == (boundEp st).port && ((boundEp st).ip.isUnspec || b.addr == (boundEp st).ip)
+         tc.state == .synRecv && b.port == (boundEp st).port && (!k.fixCloseFamily || b.addr.v6 == (boundEp st).ip.v6) &&
+           ((boundEp st).ip.isUnspec || b.addr == (boundEp st).ip)
        | _, _ => false)).map (·.fd)
 
 theorem close_listener_eq (k : Kernel) (fd : Fd) (st : Sock) (ready : List Fd)
@@ -198,7 +201,7 @@ theorem live_close_listener (k : Kernel) (o : List Fd) (fd : Fd) (st : Sock) (re
   refine live_removeListener _ o fd st ready hstf hfd hl ?_ ?_ hf
   · intro y hy s hs
     exact hnof y (by unfold closeChildren; exact List.mem_append_left _ hy) s hs
-  · intro s hs hne tc b htcs hsr hbs hport haddr
+  · intro s hs hne tc b htcs hsr hbs hport hfam haddr
     have hs0 : s ∈ k.tbl.socks := hsubf s hs
     have hmem : s.fd ∈ closeChildren k fd st ready := by
       unfold closeChildren
@@ -211,7 +214,7 @@ theorem live_close_listener (k : Kernel) (o : List Fd) (fd : Fd) (st : Sock) (re
         refine ⟨(hord s).mpr hs0, ?_⟩
         simp only [htcs, hbs, Bool.and_eq_true, Bool.or_eq_true, Bool.not_eq_true', bne_iff_ne, ne_eq,
           beq_iff_eq, List.contains_eq_mem, decide_eq_false_iff_not]
-        refine ⟨⟨hne, hr⟩, ⟨hsr, hport⟩, ?_⟩
+        refine ⟨⟨hne, hr⟩, ⟨⟨hsr, hport⟩, Or.inr hfam⟩, ?_⟩
         rcases haddr with ha | ha
         · exact Or.inl ha
         · exact Or.inr ha
